@@ -184,9 +184,35 @@ def spec_infer(name, sf_types):
     return z3.If(z3.InRe(name, TABLE_RE), z3.StringVal('table'), r)
 
 
+def _membership_transform(tree):
+    """AST rewrite on the loaded copy: `a in b` / `a not in b` become calls of __sym_in__, because Python's set and dict
+    look-ups go through hash() and would never compare a symbolic string with the members"""
+    import ast
+
+    class T(ast.NodeTransformer):
+        def visit_Compare(self, node):
+            self.generic_visit(node)
+            if len(node.ops) == 1 and isinstance(node.ops[0], (ast.In, ast.NotIn)):
+                call = ast.Call(func=ast.Name(id='__sym_in__', ctx=ast.Load()), args=[node.left, node.comparators[0]], keywords=[])
+                return ast.UnaryOp(op=ast.Not(), operand=call) if isinstance(node.ops[0], ast.NotIn) else call
+            return node
+    return T().visit(tree)
+
+
+def _sym_in(x, coll):
+    if isinstance(x, SStr) and isinstance(coll, (set, frozenset, list, tuple, dict)):
+        members = [m for m in coll if isinstance(m, str)]
+        return bool(SBool(z3.Or([x.z == z3.StringVal(m) for m in members]))) if members else False
+    if isinstance(x, SStr) and isinstance(coll, str):
+        return bool(SBool(z3.Contains(z3.StringVal(coll), x.z)))
+    if isinstance(coll, SStr):
+        return bool(SBool(z3.Contains(coll.z, x.z if isinstance(x, SStr) else z3.StringVal(x))))
+    return x in coll
+
+
 def run_infer(cfg):
     sf_types = ['aiff', 'flac', 'ogg', 'wav'] if cfg['sf'] else []
-    ns = loader.load_unit('util', dict(match=smatch), name='pydrobert.speech.util')
+    ns = loader.load_unit('util', dict(match=smatch, __sym_in__=_sym_in), transform=_membership_transform, name='pydrobert.speech.util')
     ns['config'] = types.SimpleNamespace(SOUNDFILE_SUPPORTED_FILE_TYPES=SymSet(sf_types), _BASE_SOUNDFILE_SUPPORTED_TYPES=set(), _FULL_SOUNDFILE_SUPPORTED_TYPES=set())
     viol = []
     ob = dis = 0
